@@ -22,6 +22,12 @@ RULE = ("int: for each target type u8..i64 x boundary, debug-assert-violating an
         "stored (round 2, full parser): random command trees with at least one ranged-i64 / bool / count argument "
         "(vp/gen_cmd.py), defaults, env values and subcommands as generated, 6 mostly-valid or mutated lines each; "
         "non-trivial = a successful parse in which a reported value was checked against such a parser.  "
+        "stored_wide (round 4, full parser): random command trees in which arguments (and the external-subcommand "
+        "parser) carry boolish / falsey / non-empty / possible-value (aliases, hidden values, ignore_case from the "
+        "argument's flag) / value_parser!(T).range(lo..=hi) for u8..u64 parsers; values, defaults and env values drawn "
+        "around each language boundary (literals in flipped case, near misses, U+212A, names of hidden values, wrong "
+        "case with and without ignore_case, lo-1/lo/hi/hi+1, T::MIN-1, T::MAX+1, +-2^63, 2^64, -0, lone sign, "
+        "non-UTF-8); non-trivial = a successful parse storing a value under such a parser, or a value-error rejection.  "
         "Non-trivial: int = the candidate is a well-formed decimal (so range/width decided) or carries a decoration "
         "trap; bool = ASCII-lowercases to a literal or contains non-ASCII; possible = some declared name equals the "
         "value up to case; store = the history contains a failing access or a removal.  Distinct = distinct case text.")
@@ -29,7 +35,10 @@ TRUSTED = [
     "Coq 8.16.1 kernel (coqc); no native_compute; theorems C04_* are 'Closed under the global context'",
     "extraction: ExtrOcamlBasic only, no Extract Constant; OCaml driver ocaml/value_driver.ml + zarith conversions",
     "correspondence: vp/props/c04.py generators, harness/src/modes/value.rs, string comparison of canonical results; "
-    "stream `stored`: vp/gen_cmd.py, harness/src/modes/parse.rs, ocaml/parse_driver.ml (the parser model of C01-C11)",
+    "streams `stored`/`stored_wide`: vp/gen_cmd.py, harness/src/modes/parse.rs, ocaml/parse_driver.ml (the parser model of C01-C11)",
+    "round 4: ocaml/common_parse/spec.ml copies the argument's ignore_case flag into VPPossible's `ic` (what "
+    "PossibleValuesParser::parse_ref reads from the Arg it is called for); Cmd.pv_coherent states it, "
+    "C04_stored_possible_arg uses it, stream stored_wide exercises ignore_case on/off against the real crate",
     "round 2 imports the parser-model proof files of C01/C02/C09/C10 (Invariant, IndexInv, Provenance, Dispatch, Chain, "
     "Globals, KindSound, Unparse*) as lemmas; their theorems are closed under the global context",
     "translators/tables.py: regex extraction of TRUE_LITERALS/FALSE_LITERALS, the shape of str_to_bool and of the "
@@ -44,9 +53,13 @@ ASSUMPTIONS = [
     "definition and of every successful level of the recursion (C04_parse_store_wf, C04_level_store_wf) -- for the merged result and for levels that failed under ignore_errors it remains an assumption",
     "the matcher model stores raw values only; 'the typed value next to a raw value' is typed_value (TypedView.v), the "
     "C04 model of value_parser.parse_ref applied to it (push_arg_values pushes both with one add_val_to call)",
-    "whole-parse corollaries exist for the value parsers a definition of the parser model can name (String, OsString, "
-    "bool, the u8 parser of Count, RangedI64ValueParser<i64>); boolish/falsey/non-empty/possible/enum and the other "
-    "widths have their per-parser theorems and the implementation-side streams only",
+    "whole-parse corollaries exist for the value parsers a definition of the parser model can name: String, OsString, "
+    "bool, the u8 parser of Count, RangedI64ValueParser<i64> and (round 4) boolish, falsey, non-empty, possible values, "
+    "value_parser!(T).range(lo..=hi) for every integer width; EnumValueParser (a derive-side parser, C15 models it by "
+    "a stand-in) has its per-parser theorems and the implementation-side stream only",
+    "a VPRanged t lo hi of the parser model denotes value_parser!(T).range(lo..=hi) with lo, hi inside T (outside, "
+    "the debug build panics while the command is DEFINED: stream `int` / C04_range_builder cover that; the parse-"
+    "level generator keeps the bounds inside T)",
     "non-ASCII case-insensitive matching is the Unicode full case folding of unicase (table from python's casefold); "
     "the oracle brackets it (must accept exact/ASCII-caseless matches, must reject what no folding equates)",
     "debug-assertion behaviour (range() asserts, verify_arg's UnknownArgument) is modelled by a flag and exercised in "
@@ -891,7 +904,7 @@ def gen_stored(tier, rng):
 # value_parser!(T).range(lo..=hi) for u8..u64.  Values are drawn around each parser's language boundary
 # (gen_cmd.wide_value): literals in flipped case, near misses, U+212A, names of hidden values, wrong case with and
 # without ignore_case, lo-1/lo/hi/hi+1, T::MIN-1/T::MAX+1, +/-2^63, 2^64, "-0", "+", non-UTF-8.
-WIDE_PROFILE = dict(vp_wide=0.55, vp_wide_ext=0.4, typed=0.25, defaults=0.35, env=0.25, max_opts=4, max_pos=2)
+WIDE_PROFILE = dict(vp_wide=0.55, vp_wide_ext=0.4, typed=0.25, defaults=0.35, env=0.25, max_opts=4, max_pos=2, invalid=0.01)
 VALUE_KINDS = ("InvalidValue", "ValueValidation", "InvalidUtf8")
 
 
@@ -904,7 +917,7 @@ def _wide_kind(vp):
 
 
 def gen_stored_wide(tier, rng):
-    n = 4000 if tier == "quick" else 60000
+    n = 6000 if tier == "quick" else 60000
     return parse_streams.gen_cases(rng, n, WIDE_PROFILE, per_cmd=6, p_mutate=0.2, safe_p=0.75, want=_has_wide_arg)
 
 
@@ -1003,7 +1016,9 @@ TECHNIQUE = ("Coq proof (language equality of the ranged-integer, boolean-litera
              "declarative specifications; refinement of the typed store to a finite map; round 2: a state invariant of the "
              "parser model -- every value stored for an argument was accepted by that argument's value parser -- proved by "
              "one traversal of the token loop, the env/default phases, the subcommand recursion and the globals merge, and "
-             "bridged to the value-parser models) + regenerated literal/factory tables + extracted-model/implementation "
+             "bridged to the value-parser models; round 4: the parser model's value-parser type extended by the boolish, "
+             "falsey, non-empty, possible-value and every-width ranged parsers, delegating to those models, so the invariant "
+             "and its per-parser readings cover them) + regenerated literal/factory tables + extracted-model/implementation "
              "correspondence (value parsers directly and through the full parser)")
 LEVEL_TEXT = ("Machine-checked theorems (Coq 8.16, closed under the global context): the transcription of "
               "Ranged{I64,U64}ValueParser::parse_ref over a digit-by-digit model of str::parse accepts exactly the strings "
@@ -1025,7 +1040,19 @@ LEVEL_TEXT = ("Machine-checked theorems (Coq 8.16, closed under the global conte
               "(C02's un-parser class) carrying a value outside the language is never accepted, and every value-error of "
               "parse_top is the refusal of an argument's parser of a value of the line or the definition, naming the "
               "argument; the ArgMatches of every successful level of a parse satisfies the typed-store invariant, so wrong-type and "
-              "unknown-id accesses on a parse result fail and leave every stored entry untouched.  The models are tied to "
+              "unknown-id accesses on a parse result fail and leave every stored entry untouched.  Round 4: the parser "
+              "model itself names BoolishValueParser, FalseyValueParser, NonEmptyStringValueParser, PossibleValuesParser "
+              "(ignore_case read from the argument, hidden values kept) and value_parser!(T).range(lo..=hi) for "
+              "u8/i8/u16/i16/u32/i32/u64/i64 and hands their strings to the C04 models, so all of the above holds for "
+              "commands using them; for all ten parser names `accepted by the parser model <-> in the documented language, "
+              "typed value as documented` (C04_accepts_reading): a stored boolish value is one of the regenerated literals "
+              "up to ASCII case and its typed value the truth value; falsey is false exactly for the empty string and the "
+              "false literals; a stored possible value is a declared name or alias of some value of the list -- hidden ones "
+              "included (C04_hidden_accepted) --, byte for byte unless the argument asked for ignore_case "
+              "(C04_possible_exact); a stored ranged value of any width is a decimal whose unbounded reading lies in the "
+              "declared bounds and in the type (65536 is no u16, 261 is not 5, -0 and 2^64 are no u64: C04_ranged_no_wrap, "
+              "C04_ranged_complete); and this reading holds at every level of what parse_top reports "
+              "(C04_parse_top_stored, C04_parse_top_root_stored).  The models are tied to "
               "clap_builder by running the extracted model and the real crate (direct parse_ref, full Command path, and the "
               "full parser on random command trees with typed arguments) on the same generated cases on every check, with "
               "an independent python oracle on the implementation's output.")
@@ -1035,7 +1062,9 @@ LEVEL_NOTE = ("Trusted: Coq kernel, extraction, OCaml driver, Rust harness, gene
               "C04_reject_names_arg_refuted); a failed try_remove_* moves the id to the end of ids() "
               "(C04_store_order_refuted, observation); the globals merge copies entries by id alone, so a subcommand that "
               "redefines the id of an ancestor's global argument with another value parser makes the ancestor report a value "
-              "its own parser refuses (C04_merged_typed_refuted, model = implementation, observation).  Differential only: "
-              "whole-parse statements for boolish/falsey/non-empty/possible/enum parsers and integer widths other than "
-              "i64/u8 (not expressible in the parser model's definitions), the typed store of the merged result and of levels "
+              "its own parser refuses (C04_merged_typed_refuted, model = implementation, observation).  Round 4 changed the MODEL "
+              "(Parse/Cmd.v vparser, Parse/Parser.v vp_parse; spec reader, harness and generator follow): pinned statements of "
+              "the other properties are textually unchanged and now quantify over the wider parser type.  Differential only: "
+              "whole-parse statements for EnumValueParser (derive side), the link `ic = the argument's ignore_case` outside "
+              "commands built by the spec reader (pv_coherent is a hypothesis of C04_stored_possible_arg), the typed store of the merged result and of levels "
               "that failed under ignore_errors, rejection completeness outside the un-parser class, unicase outside ASCII.")
